@@ -32,16 +32,21 @@ type V struct {
 	Lo   uint64 // C: low 8 bytes
 }
 
-func Nil() *V           { return &V{K: 'N'} }
-func Bool(b bool) *V    { if b { return &V{K: 'T'} }; return &V{K: 'F'} }
-func Int(i int64) *V    { return &V{K: 'I', I: i} }
-func Uint(u uint64) *V  { return &V{K: 'U', U: u} }
-func F32(b uint32) *V   { return &V{K: 'f', U: uint64(b)} }
-func F64(b uint64) *V   { return &V{K: 'd', U: b} }
-func Str(s []byte) *V   { return &V{K: 'S', S: s} }
-func Bin(s []byte) *V   { return &V{K: 'B', S: s} }
-func Arr(a ...*V) *V    { return &V{K: 'A', A: a} }
-func Bad() *V           { return &V{K: '!'} }
+func Nil() *V { return &V{K: 'N'} }
+func Bool(b bool) *V {
+	if b {
+		return &V{K: 'T'}
+	}
+	return &V{K: 'F'}
+}
+func Int(i int64) *V               { return &V{K: 'I', I: i} }
+func Uint(u uint64) *V             { return &V{K: 'U', U: u} }
+func F32(b uint32) *V              { return &V{K: 'f', U: uint64(b)} }
+func F64(b uint64) *V              { return &V{K: 'd', U: b} }
+func Str(s []byte) *V              { return &V{K: 'S', S: s} }
+func Bin(s []byte) *V              { return &V{K: 'B', S: s} }
+func Arr(a ...*V) *V               { return &V{K: 'A', A: a} }
+func Bad() *V                      { return &V{K: '!'} }
 func ET(sec int64, nsec uint32) *V { return &V{K: 'E', Sec: sec, Nsec: nsec} }
 func Map(keys [][]byte, vals []*V) *V {
 	return &V{K: 'M', MK: keys, A: vals}
@@ -50,7 +55,7 @@ func Map(keys [][]byte, vals []*V) *V {
 // Desc is the TLV descriptor (hex) the model reads with desc_gval.
 func (v *V) Desc() string { return hex.EncodeToString(v.desc(nil)) }
 
-func u32(b []byte, n int) []byte { return binary.BigEndian.AppendUint32(b, uint32(n)) }
+func u32(b []byte, n int) []byte    { return binary.BigEndian.AppendUint32(b, uint32(n)) }
 func u64(b []byte, n uint64) []byte { return binary.BigEndian.AppendUint64(b, n) }
 
 func (v *V) desc(b []byte) []byte {
